@@ -26,6 +26,8 @@ type Program struct {
 	Immutable []string
 	MutableGlobals map[string]bool // globals stored to outside package initialisers
 	RepoDir  string
+	reach    map[*ssa.Function]bool
+	summaryDepth int
 }
 
 // shortPkg: github.com/goghcrow/yae/parser/pos -> pos ; root -> yae
